@@ -41,26 +41,37 @@ type vecConfig struct {
 	Dim    int
 	Quant  string // none | bin-fixed | bin-learned | pq
 	BitM   string
+	Prop   string // property path of the vector field, "v" unless set (nested paths like "emb.v")
+}
+
+func (vc vecConfig) prop() string {
+	if vc.Prop != "" {
+		return vc.Prop
+	}
+	return "v"
 }
 
 var flatConfigs = []vecConfig{
-	{"euclidean", models.DistanceEuclidean, 5, "none", ""},
-	{"cosine", models.DistanceCosine, 7, "none", ""},
-	{"dot", models.DistanceDot, 4, "none", ""},
-	{"haversine", models.DistanceHaversine, 2, "none", ""},
-	{"hamming", models.DistanceHamming, 70, "none", ""},
-	{"jaccard", models.DistanceJaccard, 9, "none", ""},
-	{"euclidean+bin-fixed-hamming", models.DistanceEuclidean, 66, "bin-fixed", models.DistanceHamming},
-	{"cosine+bin-fixed-jaccard", models.DistanceCosine, 12, "bin-fixed", models.DistanceJaccard},
-	{"euclidean+bin-learned-hamming", models.DistanceEuclidean, 10, "bin-learned", models.DistanceHamming},
-	{"dot+bin-learned-jaccard", models.DistanceDot, 65, "bin-learned", models.DistanceJaccard},
-	{"euclidean+pq", models.DistanceEuclidean, 8, "pq", ""},
-	{"dot+pq", models.DistanceDot, 6, "pq", ""},
-	{"cosine+pq", models.DistanceCosine, 8, "pq", ""},
-	{"cosine+pq-untrained", models.DistanceCosine, 8, "pq-untrained", ""},
-	{"euclidean-dim1", models.DistanceEuclidean, 1, "none", ""},
-	{"hamming-dim64", models.DistanceHamming, 64, "none", ""},
-	{"euclidean-dim33", models.DistanceEuclidean, 33, "none", ""},
+	{"euclidean", models.DistanceEuclidean, 5, "none", "", ""},
+	{"cosine", models.DistanceCosine, 7, "none", "", ""},
+	{"dot", models.DistanceDot, 4, "none", "", ""},
+	{"haversine", models.DistanceHaversine, 2, "none", "", ""},
+	{"hamming", models.DistanceHamming, 70, "none", "", ""},
+	{"jaccard", models.DistanceJaccard, 9, "none", "", ""},
+	{"euclidean+bin-fixed-hamming", models.DistanceEuclidean, 66, "bin-fixed", models.DistanceHamming, ""},
+	{"cosine+bin-fixed-jaccard", models.DistanceCosine, 12, "bin-fixed", models.DistanceJaccard, ""},
+	{"euclidean+bin-learned-hamming", models.DistanceEuclidean, 10, "bin-learned", models.DistanceHamming, ""},
+	{"dot+bin-learned-jaccard", models.DistanceDot, 65, "bin-learned", models.DistanceJaccard, ""},
+	{"euclidean+pq", models.DistanceEuclidean, 8, "pq", "", ""},
+	{"dot+pq", models.DistanceDot, 6, "pq", "", ""},
+	{"cosine+pq", models.DistanceCosine, 8, "pq", "", ""},
+	{"cosine+pq-untrained", models.DistanceCosine, 8, "pq-untrained", "", ""},
+	{"euclidean-dim1", models.DistanceEuclidean, 1, "none", "", ""},
+	{"hamming-dim64", models.DistanceHamming, 64, "none", "", ""},
+	{"euclidean-dim33", models.DistanceEuclidean, 33, "none", "", ""},
+	// the vector lives under a nested property path: inserts, updates through the parent key, removal
+	{"euclidean-nested", models.DistanceEuclidean, 4, "none", "", "emb.v"},
+	{"dot-nested+bin-fixed", models.DistanceDot, 9, "bin-fixed", models.DistanceHamming, "meta.deep.vec"},
 }
 
 func (vc vecConfig) quantizer() *models.Quantizer {
@@ -98,9 +109,9 @@ func (c04) Cases(tier string, seed uint64) []fw.Case {
 func vectorSchema(kind string, vc vecConfig, searchSize, degree int, alpha float32) models.IndexSchema {
 	s := models.IndexSchema{"n": gen.Int(), "tags": gen.StrArr(false)}
 	if kind == "flat" {
-		s["v"] = gen.Flat(vc.Dim, vc.Metric, vc.quantizer())
+		s[vc.prop()] = gen.Flat(vc.Dim, vc.Metric, vc.quantizer())
 	} else {
-		s["v"] = gen.Vamana(vc.Dim, vc.Metric, searchSize, degree, alpha, vc.quantizer())
+		s[vc.prop()] = gen.Vamana(vc.Dim, vc.Metric, searchSize, degree, alpha, vc.quantizer())
 	}
 	return s
 }
@@ -149,7 +160,8 @@ func (c04) RunCase(c fw.Case, env *fw.Env) *fw.CaseResult {
 	res := fw.NewResult()
 	vc := flatConfigs[c.Int("config", 0)]
 	schema := vectorSchema("flat", vc, 0, 0, 0)
-	sv := schema["v"]
+	vp := vc.prop()
+	sv := schema[vp]
 	g := gen.New(c.Seed, schema)
 	g.PresentProb = 0.85
 	path := shardPath(env, "c04")
@@ -166,9 +178,9 @@ func (c04) RunCase(c fw.Case, env *fw.Env) *fw.CaseResult {
 	h.MaxBatch = 30
 	h.RejectProb = 0.08
 	steps := c.Int("steps", 10)
-	cacheName := path + "/" + indexBucket("v", sv)
+	cacheName := path + "/" + indexBucket(vp, sv)
 	nQueries := 10
-	tw := newTrainWatch("v", sv)
+	tw := newTrainWatch(vp, sv)
 	for step := 0; step < steps; step++ {
 		var op gen.Op
 		if step == 0 && vc.Quant == "pq" {
@@ -195,7 +207,7 @@ func (c04) RunCase(c fw.Case, env *fw.Env) *fw.CaseResult {
 			res.Violate("dump-error", "C04:dump", err.Error(), nil)
 			return res
 		}
-		o := newVecOracle(dump, "v", sv)
+		o := newVecOracle(dump, vp, sv)
 		if o.trained() {
 			res.Stat("batches_with_trained_quantiser", 1)
 			if o.mode == "pq" {
@@ -225,7 +237,7 @@ func (c04) RunCase(c fw.Case, env *fw.Env) *fw.CaseResult {
 			if qi%4 == 3 && len(m.Docs) > 0 {
 				// query equal to a stored vector (distance 0 / exact ties)
 				for _, d := range m.Docs {
-					if v, ok := model.AsVector(d, "v"); ok && len(v) == vc.Dim {
+					if v, ok := model.AsVector(d, vp); ok && len(v) == vc.Dim {
 						query = append([]float32(nil), v...)
 						break
 					}
@@ -239,7 +251,7 @@ func (c04) RunCase(c fw.Case, env *fw.Env) *fw.CaseResult {
 			if g.R.IntN(3) == 0 {
 				filter, fset, fdesc = genFilter(g, m, schema)
 			}
-			req := models.SearchRequest{Query: models.Query{Property: "v", VectorFlat: &models.SearchVectorFlatOptions{Vector: query, Operator: models.OperatorNear, Limit: limit, Filter: filter, Weight: w}}, Limit: 100}
+			req := models.SearchRequest{Query: models.Query{Property: vp, VectorFlat: &models.SearchVectorFlatOptions{Vector: query, Operator: models.OperatorNear, Limit: limit, Filter: filter, Weight: w}}, Limit: 100}
 			if req.Validate() != nil || req.Query.ValidateSchema(schema) != nil {
 				continue
 			}
